@@ -680,7 +680,7 @@ func genC25(g *Gen, idx int) *Plan {
 		cfg := g.BaseCfg()
 		cfg.Sched = g.Sched("gateway/")
 		cfg.Auth = g.Bool(0.3)
-		cfg.Predefined = g.Predef([]string{"c1"})
+		cfg.Predefined = g.PredefWithFilters([]string{"c1"})
 		cfg.RetryDelayMs = g.Range(200, 2000)
 		p := &Plan{Family: "C25-peer-fuzz", Cfg: cfg}
 		sg := &sessGen{g: g, cid: "c1"}
